@@ -6,7 +6,7 @@ Usage: collect_seeded.py [results-file ...]   (lane result files with lines '<di
 import json, os, re, shutil, sys, glob
 SRC='/tmp/seeded'; DST='/verif/seeded'
 confirm={}
-for line in open('/verif/work/seeded_confirm.txt'):
+for line in open('/verif/seeded/results/confirmations.txt'):
     m=re.match(r'(\S+)/(m\d+) demo_clean=(\S+) demo_patched=(\S+) suite=(\S+) (\S+)',line)
     if m: confirm[(m.group(1),m.group(2))]=dict(demo_clean=int(m.group(3)),demo_patched=int(m.group(4)),suite=int(m.group(5)),verdict=m.group(6))
 runs={}   # (pid,k) -> list of result dicts in file order
@@ -19,11 +19,17 @@ os.makedirs(DST,exist_ok=True)
 n=0
 for (pid,k),c in sorted(confirm.items()):
     src=f'{SRC}/{pid}/{k}'
-    if not c['verdict'].startswith('CONFIRMED') or not os.path.exists(src+'/patch.diff'): continue
-    dst=f'{DST}/{pid}-{k}'; os.makedirs(dst,exist_ok=True)
-    shutil.copy(src+'/patch.diff',dst+'/patch.diff'); shutil.copy(src+'/demo.rs',dst+'/demo.rs')
-    try: meta=json.load(open(src+'/meta.json'))
-    except Exception: meta={}
+    dst=f'{DST}/{pid}-{k}'
+    if not c['verdict'].startswith('CONFIRMED'): continue
+    if os.path.exists(src+'/patch.diff'):
+        os.makedirs(dst,exist_ok=True)
+        shutil.copy(src+'/patch.diff',dst+'/patch.diff'); shutil.copy(src+'/demo.rs',dst+'/demo.rs')
+        try: meta=json.load(open(src+'/meta.json'))
+        except Exception: meta={}
+    elif os.path.exists(dst+'/meta.json'):
+        meta=json.load(open(dst+'/meta.json'))   # scratch copies are gone: keep what was collected
+    else:
+        continue
     out={"id":f"{pid}-{k}","property":pid,"summary":meta.get("summary",""),"needs":meta.get("needs",""),
          "demo":"demo.rs is a cargo example: copy to cozy-chess/examples/demo.rs, run `cargo run --offline --example demo`; exits 0 on the unchanged library, panics with patch.diff applied",
          "author":"independent sub-agent given only the property text and a scratch worktree",
